@@ -537,12 +537,16 @@ package scanner
 // names on the stack are registered in uniqueFiles (so that a second push of the same file is refused)
 //@ pred namesOK(st *Stack) := forallp(j, at(st.stack, j).scanner,
 //@     imp(st.stack.off <= j && j < st.stack.off + len(st.stack), has(st.uniqueFiles, at(st.stack, j).scanner.file.name)))
+// stacked names are pairwise distinct (Push refuses a registered name), so the delete in Pop unregisters only the popped one
+//@ pred distinctOK(st *Stack) := forallp(j, k, at(st.stack, j).scanner, at(st.stack, k).scanner,
+//@     imp(st.stack.off <= j && j < k && k < st.stack.off + len(st.stack),
+//@         at(st.stack, j).scanner.file.name != at(st.stack, k).scanner.file.name))
 //@ pred tracersOK(st *Stack) := forall(k, uint64, imp(st.includeTracers != nil && has(st.includeTracers, k), st.includeTracers[k] != nil))
-//@ pred stackInv(st *Stack) := st != nil && itemsOK(st) && namesOK(st) && len(st.hashes) == len(st.stack) && tracersOK(st)
+//@ pred stackInv(st *Stack) := st != nil && itemsOK(st) && namesOK(st) && distinctOK(st) && len(st.hashes) == len(st.stack) && tracersOK(st)
 
 //@ func (*Stack).Push(s, scanner, at)
 //@   property C14,C01
-//@   requires s != nil && itemsOK(s) && namesOK(s) && len(s.hashes) == len(s.stack)
+//@   requires s != nil && itemsOK(s) && namesOK(s) && distinctOK(s) && len(s.hashes) == len(s.stack)
 //@   requires scanner != nil && scanner.file != nil && at < len(scanner.file.content.data)
 //@   modifies s.uniqueFiles, s.uniqueFiles[:], s.stack, s.stack[:], s.hashes, s.hashes[:]
 //@   ensures[C14,@include-cycle] imp(old(s.uniqueFiles != nil && has(s.uniqueFiles, scanner.file.name)), result != nil)
@@ -550,6 +554,7 @@ package scanner
 //@   ensures itemsOK(s)
 //@   ensures imp(result == nil, namesOK(s) && len(s.hashes) == len(s.stack) && len(s.stack) == old(len(s.stack)) + 1)
 //@   ensures imp(result == nil, s.stack[len(s.stack)-1].scanner == scanner && s.stack[len(s.stack)-1].at == at)
+//@   ensures[C14,@stacked-names-distinct] imp(result == nil, distinctOK(s))
 
 //@ func (*Stack).Pop(s)
 //@   property C14,C01,C07
@@ -565,8 +570,9 @@ package scanner
 // Ownership fact that the typed-heap model cannot express (no separation logic): a scanner was not reachable from
 // running code while it was stacked, so it still satisfies the invariant it satisfied when it was pushed.
 //@   assume imp(result != nil, scannerInv(result))
-// names still on the stack stay registered: needs that stacked names are pairwise distinct (delete removes one name)
-//@   assume namesOK(s)
+// names still on the stack stay registered: stacked names are pairwise distinct, so the delete removes only the popped one
+//@   ensures[C14,@names-stay-registered] namesOK(s)
+//@   ensures[C14,@stacked-names-distinct] distinctOK(s)
 
 // the tracer handed to a directive describes exactly the include stack at that moment (C07)
 //@ pred tracerMatches(t directiveIncludeTracer, ii []stackItem) := len(t.stack) == len(ii)
